@@ -562,7 +562,9 @@ static void GC_Set(var self, var key, var val) {
   gc->minptr = (uintptr_t)key < gc->minptr ? (uintptr_t)key : gc->minptr;
   GC_Resize_More(gc);
   GC_Set_Ptr(gc, key, (bool)c_int(val));
-  if (gc->nitems > gc->mitems) {
+  /* A destructor run by the sweep may allocate. Starting another collection
+  ** there would discard the list of objects the sweep still has to finalise */
+  if (gc->nitems > gc->mitems and gc->freelist is NULL) {
     GC_Mark(gc);
     GC_Sweep(gc);
   }
